@@ -18,8 +18,8 @@ Proof. unfold gkeys, prep1. rewrite map_map. reflexivity. Qed.
 Lemma prep1_gedge g a b : gedge (prep1 g) a b <-> gedge g a b /\ a <> b.
 Proof.
   unfold gedge, prep1. split.
-  - intros [ss [I1 I2]]. apply in_map_iff in I1 as [[k l] [Q I1]]. simpl in Q. inversion Q. subst.
-    apply filter_In in I2 as [I2 I3]. apply uniq_nodes_In in I2. apply negb_true_iff, node_eqb_neq in I3.
+  - intros [ss [I1 I2]]. apply in_map_iff in I1 as [[k l] [Q I1]]. simpl in Q. inversion Q. subst. clear Q.
+    apply filter_In in I2 as [I2 I3]. rewrite uniq_nodes_In in I2. apply negb_true_iff, node_eqb_neq in I3.
     split; [exists l; auto | congruence].
   - intros [[l [I1 I2]] Ne]. eexists. split.
     + apply in_map_iff. exists (a, l). split; [reflexivity | exact I1].
@@ -57,9 +57,12 @@ Qed.
 
 Lemma prepare_keys g n : In n (gkeys (prepare g)) <-> In n (gkeys g) \/ exists k, gedge g k n.
 Proof.
-  rewrite prepare_eq. unfold gkeys at 1. rewrite map_app, in_app_iff, map_map. simpl. rewrite map_id.
-  fold (gkeys (prep1 g)). rewrite prep1_keys, filter_In, uniq_nodes_In, prep1_keys, negb_true_iff, mem_node_not_In.
-  split.
+  assert (E : In n (gkeys (prepare g)) <->
+              In n (gkeys g) \/ (In n (flat_map snd (prep1 g)) /\ ~ In n (gkeys g))).
+  { rewrite prepare_eq. unfold gkeys at 1. rewrite map_app, in_app_iff, map_map. simpl. rewrite map_id.
+    change (map fst (prep1 g)) with (gkeys (prep1 g)).
+    rewrite filter_In, uniq_nodes_In, negb_true_iff, mem_node_not_In, !prep1_keys. reflexivity. }
+  rewrite E. clear E. split.
   - intros [H | [H _]]; [auto|]. right. apply in_flat_map in H as [[k l] [I1 I2]]. exists k.
     apply (prep1_gedge g k n). exists l. auto.
   - intros [H | [k E]]; [auto|]. destruct (in_dec node_eq_dec n (gkeys g)) as [I | I]; [auto|]. right. split; [|exact I].
